@@ -73,6 +73,8 @@ pub(crate) fn analyze_binding_escapes<'a, N>(
 where
     &'a mut N: Into<NodeRefMut<'a>>,
 {
+    #[cfg(boa_verif)]
+    let in_eval = in_eval || crate::verif::force_escape();
     let mut visitor = BindingEscapeAnalyzer {
         scope,
         direct_eval: in_eval,
